@@ -41,7 +41,12 @@ template <class T, class SizeType, typename std::enable_if<!amc::is_trivially_re
 inline void shift_right(T *first, SizeType n) noexcept(is_shift_nothrow<T>::value) {
   T *last = first + n;
   amc::construct_at(last, std::move(*(last - 1)));
-  std::move_backward(first, last - 1, last);
+  try {
+    std::move_backward(first, last - 1, last);
+  } catch (...) {
+    amc::destroy_at(last);  // it lies beyond the size of the container, nobody else would destroy it
+    throw;
+  }
 }
 
 /// Specialization for trivially relocatable types. Just use memmove here.
@@ -58,7 +63,12 @@ void shift_right(T *first, SizeType n, SizeType count) noexcept(is_shift_nothrow
   if (count < n) {
     T *last = first + n;
     amc::uninitialized_move_n(last - count, count, last);  // move last 'count' elems to uninitialized storage
-    std::move_backward(first, last - count, last);         // move remaining 'n - count' elems to initialized storage
+    try {
+      std::move_backward(first, last - count, last);  // move remaining 'n - count' elems to initialized storage
+    } catch (...) {
+      amc::destroy_n(last, count);  // they lie beyond the size of the container, nobody else would destroy them
+      throw;
+    }
   } else {
     // no overlap, we shift all elements to uninitialized memory
     amc::uninitialized_move_n(first, n, first + count);
@@ -943,21 +953,22 @@ class DynamicVector : public DynamicVectorBaseTypeDispatcher<T, Alloc, SizeType,
       SizeType idx = static_cast<SizeType>(position - this->begin());
       try {
         this->grow(static_cast<uintmax_t>(this->size()) + 1U);
+        pos = this->begin() + idx;
+        if (nElemsToShift == 0) {
+          amc::relocate_at(e.ptr(), pos);
+        } else {
+          shift_right(pos, nElemsToShift);
+          try {
+            relocate_after_shift(e.ptr(), pos);
+          } catch (...) {
+            shift_left(pos + 1, nElemsToShift);
+            throw;
+          }
+        }
       } catch (...) {
+        // grow failed, or a move of T threw: in both cases the pending element is still alive in 'e'
         amc::destroy_at(e.ptr());
         throw;
-      }
-      pos = this->begin() + idx;
-      if (nElemsToShift == 0) {
-        amc::relocate_at(e.ptr(), pos);
-      } else {
-        shift_right(pos, nElemsToShift);
-        try {
-          relocate_after_shift(e.ptr(), pos);
-        } catch (...) {
-          shift_left(pos + 1, nElemsToShift);
-          throw;
-        }
       }
     } else {
       pos = const_cast<iterator>(position);
@@ -976,12 +987,13 @@ class DynamicVector : public DynamicVectorBaseTypeDispatcher<T, Alloc, SizeType,
       amc::construct_at(e.ptr(), std::forward<Args &&>(args)...);
       try {
         this->grow(static_cast<uintmax_t>(this->size()) + 1U);
+        endIt = this->dynStorage() + this->size();
+        amc::relocate_at(e.ptr(), endIt);
       } catch (...) {
+        // grow failed, or the move constructor of T threw: in both cases the pending element is still alive in 'e'
         amc::destroy_at(e.ptr());
         throw;
       }
-      endIt = this->dynStorage() + this->size();
-      amc::relocate_at(e.ptr(), endIt);
     } else {
       endIt = this->begin() + this->size();
       amc::construct_at(endIt, std::forward<Args &&>(args)...);
